@@ -32,6 +32,8 @@ var (
 	sitesOut = flag.String("sites", "", "write site table (json) here")
 	mapsOnly = flag.String("mapsonly", "", "comma separated files that only get their map ranges rewritten (no yields)")
 	reimport = flag.String("reimport", "", "comma separated old=new import path rewrites applied to every processed file")
+	pools    = flag.Bool("pools", false, "sync.Pool becomes xsim.Pool (a free list the simulator owns and can reset)")
+	skipInit = flag.Bool("skipinit", false, "do not instrument func init (goroutines started at program initialisation live outside every run)")
 )
 
 type site struct {
@@ -452,7 +454,7 @@ func instrumentFile(f *ast.File) {
 	ast.Inspect(f, func(n ast.Node) bool {
 		if se, ok := n.(*ast.SelectorExpr); ok {
 			if id, ok := se.X.(*ast.Ident); ok && id.Name == "sync" && id.Obj == nil {
-				if se.Sel.Name == "Mutex" || se.Sel.Name == "RWMutex" {
+				if se.Sel.Name == "Mutex" || se.Sel.Name == "RWMutex" || (*pools && se.Sel.Name == "Pool") {
 					id.Name = "xsim"
 				} else {
 					usesSync = true
@@ -463,6 +465,9 @@ func instrumentFile(f *ast.File) {
 	})
 	for _, d := range f.Decls {
 		if fd, ok := d.(*ast.FuncDecl); ok && fd.Body != nil {
+			if *skipInit && fd.Name.Name == "init" && fd.Recv == nil {
+				continue
+			}
 			ast.Walk(visitor{}, fd.Body)
 		} else if gd, ok := d.(*ast.GenDecl); ok {
 			ast.Inspect(gd, func(n ast.Node) bool {
